@@ -306,6 +306,8 @@ def run_hybrid(meta):
     for i, nm in enumerate(spec["names"]):
         kind = meta["kinds"][i]
         ip = None if meta["inits"][i] is None else np.asarray(meta["inits"][i], dtype=float)
+        if ip is not None and meta.get("init_scalar", [False] * k)[i]:
+            ip = float(ip[0])                       # a plain number, as in MH(initial_point=3): HybridGibbs keeps it as it is
         if kind == "KMH":
             h = {"xi": None, "u": None}
             smp = C["KMH"](tr, i, scripts[i], h, holders, proposal=C["Prop"](spec["dims"][i], h), scale=meta["scales"][i], initial_point=ip)
@@ -343,10 +345,15 @@ def run_hybrid(meta):
                        "init": [float(a) for a in np.asarray(smp.initial_point).ravel()],
                        "leftover": len(scripts[i])})
         obs["samplers"] = ss
-        gs = G.get_samples()
-        obs["get_samples_ok"] = all(np.array_equal(np.asarray(gs[n].samples),
-                                                    np.array([r[i] for r in obs["stored"]]).T.reshape(spec["dims"][i], nsw))
-                                    for i, n in enumerate(spec["names"])) if nsw else True
+        try:
+            gs = G.get_samples()
+            ok = all(np.array_equal(np.asarray(gs[n].samples).reshape(spec["dims"][i], nsw),
+                                    np.array([r[i] for r in obs["stored"]]).T.reshape(spec["dims"][i], nsw))
+                     for i, n in enumerate(spec["names"])) if nsw else True
+            obs["get_samples"] = "ok" if ok else "returns other values than the stored sweeps"
+        except Exception as e:      # noqa
+            obs["get_samples"] = "raised %s: %s" % (type(e).__name__, str(e)[:120])
+        obs["stored_shapes"] = [[list(np.shape(G.samples[n][t])) for n in spec["names"]] for t in range(nsw)]
     except Exception as e:          # noqa
         obs["error"] = "%s: %s" % (type(e).__name__, e)
         obs["events"] = tr.events
@@ -437,9 +444,21 @@ def oracle_hybrid(meta, obs):
             return "sampler %s: %d acceptance entries for %d transitions" % (spec["names"][i], len(s["acc"]) - 1, nsw * nst[i]), "HybridGibbs.step|sampler-history-lost"
         if s["leftover"]:
             return "sampler %s consumed fewer random items than transitions configured" % spec["names"][i], "HybridGibbs.step|visits"
-    if not obs.get("get_samples_ok", True):
-        return "get_samples() does not return the stored sweeps", "HybridGibbs.get_samples"
     return None, None
+
+
+SIG_GETS = "HybridGibbs.get_samples|dim1-block:scalar-point-stored-unreshaped"
+
+
+def oracle_get_samples(meta, obs):
+    """get_samples() returns the stored sweeps"""
+    if obs.get("error") or obs.get("get_samples", "ok") == "ok":
+        return None
+    spec = meta["spec"]
+    mixed = [spec["names"][i] for i in range(len(spec["names"]))
+             if len(set(tuple(sh[i]) for sh in obs["stored_shapes"])) > 1]
+    return ("get_samples() %s; stored entries of block(s) %s mix 0-d values (the scalar initial_point, kept while the sampler "
+            "rejects) with 1-d arrays" % (obs["get_samples"], mixed))
 
 
 def oracle_cache(meta, obs):
@@ -610,8 +629,9 @@ def gen_hybrid(rng, cell):
     nsw = sum(op[1] for op in ops)
     scales = [rng.choice([0.25, 0.5, 1.0]) for _ in range(k)]
     inits = [None if rng.random() < 0.25 else rvec(rng, spec["dims"][i], -2, 2, 2) for i in range(k)]
+    init_scalar = [bool(inits[i] is not None and spec["dims"][i] == 1 and kinds[i] != "KDirect" and rng.random() < 0.4) for i in range(k)]
     return {"iface": "hybrid", "cell": name, "spec": spec, "kinds": list(kinds), "num_steps": None if steps is None else list(steps),
-            "ops": [list(o) for o in ops], "scales": scales, "inits": inits, "probes": gen_probes(rng, spec),
+            "ops": [list(o) for o in ops], "scales": scales, "inits": inits, "init_scalar": init_scalar, "probes": gen_probes(rng, spec),
             "script": gen_script(rng, spec, kinds, nst, nsw, scales)}
 
 
@@ -660,6 +680,22 @@ def run_legacy(meta):
     strategy = {}
     for i, nm in enumerate(spec["names"]):
         strategy[nm] = mk_mh(i) if meta["kinds"][i] == "LMH" else mk_rec(i)
+    if meta.get("tuple_key"):
+        # one sampler class for a tuple of parameters (as in the docstring: ('d','l'): Conjugate); the class finds the
+        # block it serves from the only parameter its target still has
+        grp = [i for i in meta["tuple_key"]]
+
+        class LRecAny:
+            def __init__(self, tgt):
+                self.target = tgt
+                self.blk = spec["names"].index(tgt.get_parameter_names()[-1])
+
+            def step(self, x):
+                tr.on_lstep(self.blk, self.target, x)
+                return np.asarray(scripts[self.blk].pop(0)["vec"], dtype=float)
+        for i in grp:
+            del strategy[spec["names"][i]]
+        strategy[tuple(spec["names"][i] for i in grp)] = LRecAny
 
     class GX(Gibbs):
         def step(self, current_samples):
@@ -784,6 +820,7 @@ LG_CELLS = [
     ("legacy/rec/4blk/lik2/continue", 4, 2, ["LRec"] * 4, [(2, 1), (2, 0), (1, 0)]),
     ("legacy/rec/2blk/second-warmup-refused", 2, 1, ["LRec"] * 2, [(1, 1), (1, 2), (2, 0)]),
     ("legacy/rec/2blk/warmup-only-then-continue", 2, 1, ["LRec"] * 2, [(0, 2), (2, 0)]),
+    ("legacy/rec/3blk/tuple-key", 3, 1, ["LRec"] * 3, [(2, 1), (1, 0)]),
     ("legacy/mh/2blk/sample", 2, 0, ["LMH", "LMH"], [(4, 0)]),
     ("legacy/mh+rec/3blk/lik/continue", 3, 1, ["LMH", "LRec", "LMH"], [(2, 1), (2, 0)]),
     ("legacy/mh/3blk/lik2/warmup", 3, 2, ["LMH"] * 3, [(2, 2)]),
@@ -811,7 +848,8 @@ def gen_legacy(rng, cell):
     scales = [rng.choice([0.25, 0.5, 1.0]) for _ in range(k)]
     inits = [None if rng.random() < 0.3 else rvec(rng, spec["dims"][i], -2, 2, 2) for i in range(k)]
     kk = ["KMH" if x == "LMH" else "KRec" for x in kinds]
-    return {"iface": "legacy", "cell": name, "spec": spec, "kinds": list(kinds), "ops": [list(o) for o in ops], "scales": scales,
+    tk = [0, 2] if "tuple-key" in name else None
+    return {"iface": "legacy", "cell": name, "spec": spec, "kinds": list(kinds), "ops": [list(o) for o in ops], "scales": scales, "tuple_key": tk,
             "inits": inits, "probes": gen_probes(rng, spec), "script": gen_script(rng, spec, kk, [1] * k, nsw, scales)}
 
 
@@ -912,6 +950,12 @@ def make_cases(meta, fresh):
         detail, sig = oracle_hybrid(meta, obs)
         out.append(Case(expr=encode_hybrid(meta, obs, fresh), meta=meta, cell=meta["cell"], kind="EXACT" if "KMH" in meta["kinds"] or "KDirect" in meta["kinds"] else "DECISION",
                         impl_fail=detail, signature=sig or ""))
+        if any(meta.get("init_scalar", [])) and not obs.get("error"):
+            d = oracle_get_samples(meta, obs)
+            m3 = dict(meta)
+            m3["check"] = "get_samples"
+            out.append(Case(expr="Nat.eqb (length (r_stored (hybrid_run %s))) %s" % (hybrid_args(meta, fresh), cnat(len(obs["stored"]))),
+                            meta=m3, cell=meta["cell"] + "/get_samples", kind="DECISION", impl_fail=d, signature=SIG_GETS if d else ""))
         if "KMH" in meta["kinds"] and not obs.get("error"):
             d = oracle_cache(meta, obs)
             m2 = dict(meta)
@@ -932,7 +976,7 @@ def run(ctx):
     fresh, detail = tree_variant(ctx)
     ctx.note("HybridGibbs on this tree %s cached target evaluations when re-conditioning (model variant fresh=%s)" % ("REFRESHES" if fresh else "restores stale", fresh))
     cases = []
-    reps = ctx.n(3, 30)
+    reps = ctx.n(10, 60)
     for cell in HY_CELLS:
         for _ in range(reps):
             cases += make_cases(gen_hybrid(rng, cell), fresh)
@@ -957,6 +1001,8 @@ def classify(meta, detail):
     m = meta.get("meta", meta)
     if m.get("check") == "cache":
         return SIG_STALE % "MH"
+    if m.get("check") == "get_samples":
+        return SIG_GETS
     if m.get("iface") == "hybrid-real":
         return SIG_STALE % m.get("which", "?")
     return "HybridGibbs" if m.get("iface") == "hybrid" else "Gibbs"
@@ -968,6 +1014,8 @@ def oracle(ctx, meta):
         obs = run_hybrid(m)
         if m.get("check") == "cache":
             return oracle_cache(m, obs)
+        if m.get("check") == "get_samples":
+            return oracle_get_samples(m, obs)
         return oracle_hybrid(m, obs)[0]
     if m.get("iface") == "legacy":
         return oracle_legacy(m, run_legacy(m))[0]
@@ -997,6 +1045,7 @@ def replay(ctx, meta):
             print("  step of block %s: current_samples %s, point %s, target at probes %s, cached %s" % (m["spec"]["names"][e["blk"]], e["cur"], e["pt"], e["probes"], e.get("cache")))
         print("property oracle (wiring):", oracle_hybrid(m, obs))
         print("property oracle (cached evaluations):", oracle_cache(m, obs))
+        print("property oracle (get_samples):", oracle_get_samples(m, obs), "| shapes of the stored entries:", obs.get("stored_shapes"))
         fresh, _ = tree_variant(ctx)
         rc, out = eval_in_coq(IMPORTS, "let x := hybrid_run %s in (r_stored x, map (fun e => (e_blk e, e_cur e, s_pt (e_s e), s_cache (e_s e))) (r_log x))" % hybrid_args(m, fresh), tag="replay_C09")
         print("model (stored sweeps; per step: block, current_samples, point, cached):\n", out[-3000:])
